@@ -23,7 +23,7 @@ func init() { register("C05", "other", checkC05) }
 // speaks of encodings that fit the 16-bit length field (262144 bytes); sizes
 // between 65533 and 262144 bytes are not covered (CCFeedbackReport computes its
 // size in uint16 there), see DESIGN.md.
-const c05MaxBytes = 65532
+var c05MaxBytes int64 = 65532
 
 type c05Type struct {
 	name        string
@@ -70,11 +70,14 @@ func headerFieldIdx(p *core.Prog) (map[string]int, *types.Named) {
 func checkC05(c *Ctx) {
 	r := c.Rep
 	p := c.Prog
+	if os.Getenv("C05_MAXBYTES") != "" {
+		fmt.Sscanf(os.Getenv("C05_MAXBYTES"), "%d", &c05MaxBytes)
+	}
 	r.Explain = "Per packet type T: (DET) MarshalSize/Header/Len are effect-free and T.Marshal never modifies its receiver copy, so every evaluation of T.MarshalSize on the receiver during and after Marshal denotes ONE value MS; (ALN) the numeric abstract interpreter (linear constraints + linear congruences) evaluates T.MarshalSize on an unconstrained receiver and must derive result ≡ 0 (mod 4) at every return; (LEN) it evaluates T.Marshal on an unconstrained receiver and, at every return whose error is nil, must entail len(result) = MS, where MS is obtained both from the in-Marshal calls and from a re-evaluation of T.MarshalSize on the same receiver in the return state; (HDR) the 16-bit value handed to the single header write that reaches output bytes 2..3 (Header.Marshal of the root frame, or PutUint16(buf[2:..]) in MarshalTo) must satisfy 4*(Length+1) = len(result); (ACC) T.Header() and T.Len() re-evaluated in the return state must agree with the header written and with MS. ExtendedReport: sizes are wireSize(x) (reflection) — decided by the type-shape rule over the XR type graph. CompoundPacket / rtcp.Marshal: SSA shape rules (accumulator over every member)."
 	r.RuleText = "C05-DET, C05-ALN, C05-LEN, C05-HDR, C05-ACC per packet type; C05-XR (wire forms of the report-block types, wireSize reads no field contents); C05-SUM / C05-CAT for CompoundPacket.MarshalSize / rtcp.Marshal / CompoundPacket.Marshal."
 	r.Trusted = []string{"go/ssa, VTA call graph", "numeric engine checker/num", "effects analysis checker/effects (write sets)", "models of encoding/binary, copy, append, make", "reflect: Type.Size/NumField/Len depend only on types and slice lengths"}
 	r.Assume = []string{
-		fmt.Sprintf("size domain: MarshalSize() <= %d bytes (one UDP datagram); the property's full domain is 262144 bytes", c05MaxBytes),
+		fmt.Sprintf("size domain: the encoding is at most %d bytes (one UDP datagram) and the fixed-width arithmetic of the size computations (functions reachable from a MarshalSize method) therefore does not wrap; the property's full domain is 262144 bytes (above 65535 bytes CCFeedbackReport.Marshal and TransportLayerCC compute sizes in uint16: CCFB panics there, it does not succeed)", c05MaxBytes),
 		"receivers are non-nil and their list elements are non-nil (a nil element makes Marshal panic, outside this property)",
 		"no slice longer than 2^50; int arithmetic on lengths does not overflow 64 bits",
 	}
@@ -96,6 +99,7 @@ func checkC05(c *Ctx) {
 	}
 	an := effects.New(p.SPkg, p.Funcs, p.CallGraph(), nil)
 	ts := c05Types(c)
+	c05SizeFns = sizeUniverse(c)
 	for _, t := range ts {
 		if t.marshal == nil || t.marshalSize == nil {
 			r.Fatalf("unresolved anchor: %s.Marshal / MarshalSize", t.name)
@@ -143,6 +147,7 @@ func checkC05(c *Ctx) {
 			return // sum of aligned members (C05-SUM)
 		}
 		e := newNumEngine(c, nil)
+		e.AssumeNoWrap = c05SizeFns
 		var rets []num.RootReturn
 		if msg := guarded(func() { rets = e.AnalyzeRoot(t.marshalSize, num.RootOptions{ElemsNonNil: true}) }); msg != "" {
 			mu.Lock()
@@ -201,6 +206,39 @@ func checkC05(c *Ctx) {
 	if os.Getenv("C05_ONLY") == "" || os.Getenv("C05_ONLY") == "CompoundPacket" {
 		c05Compound(c)
 	}
+}
+
+// c05SizeFns: functions reachable from a MarshalSize method or wireSize; under the size-domain
+// assumption (the true encoding size is at most c05MaxBytes) their fixed-width arithmetic does not wrap.
+var c05SizeFns map[*ssa.Function]bool
+
+func sizeUniverse(c *Ctx) map[*ssa.Function]bool {
+	p := c.Prog
+	cg := p.CallGraph()
+	out := map[*ssa.Function]bool{}
+	var work []*ssa.Function
+	for _, n := range core.PacketTypes {
+		if f, _ := p.Method(n, "MarshalSize"); f != nil {
+			work = append(work, f)
+		}
+	}
+	if ws := p.Func("wireSize"); ws != nil {
+		work = append(work, ws)
+	}
+	for len(work) > 0 {
+		f := work[len(work)-1]
+		work = work[:len(work)-1]
+		if out[f] || f.Pkg != p.SPkg {
+			continue
+		}
+		out[f] = true
+		if n := cg.Nodes[f]; n != nil {
+			for _, e := range n.Out {
+				work = append(work, e.Callee.Func)
+			}
+		}
+	}
+	return out
 }
 
 func guarded(f func()) (msg string) {
@@ -342,6 +380,7 @@ func c05Marshal(c *Ctx, an *effects.Analysis, t c05Type, det, aln bool, recvAllo
 		out = append(out, c05Obl{rule, key, p.Pos(pos), detail, st})
 	}
 	e := newNumEngine(c, nil)
+	e.AssumeNoWrap = c05SizeFns
 	// helper Marshal methods of member types are effect-free; their bytes are copied into the
 	// (already sized) buffer, so their results are left opaque
 	e.Opaque = map[*ssa.Function]bool{}
